@@ -37,6 +37,9 @@ Import ListNotations.
 Local Open Scope R_scope.
 Definition c3 (i : nat) (v : tx3) : tx :=
   match i with 0%nat => fst (fst v) | 1%nat => snd (fst v) | _ => snd v end.
+Ltac c12_rw := repeat match goal with H : vj _ _ _ _ _ = _ |- _ => try rewrite !H; clear H end.
+Ltac c12_tie_const := intros; unfold tan, Rdiv; cbv [c3]; ev_cbn; c12_rw;
+  first [ solve [ring] | solve [field; repeat split; auto] | solve [field_simplify_eq; [ring | repeat split; auto ..]] ].
 Ltac c12_tie := intros; unfold tan, Rdiv; cbv [c3]; ev_cbn;
   first [ solve [ring] | solve [field; repeat split; auto] | solve [field_simplify_eq; [ring | repeat split; auto ..]] ].
 """
@@ -66,39 +69,68 @@ def coords_of(p):
     return [p.coordinate(0), p.coordinate(1), p.coordinate(2)]
 
 
-def scalar_field(cs, fn):
-    """fn : three coordinate expressions -> expression"""
+VPATHS = ["lambda", "list", "from_vector", "from_sympy_vector"]     # every way a VectorField can be constructed
+SPATHS = ["lambda", "value", "from_expression"]                     # every way a ScalarField can be constructed
+
+
+def scalar_field(cs, fn, path="lambda"):
+    """fn : three coordinate expressions -> expression.  `path` = how the ScalarField object is constructed:
+    point function, stored value (number or expression in the base scalars), ScalarField.from_expression."""
     ScalarField = impl()[1]
-    return ScalarField(lambda p: fn(*coords_of(p)), cs)
+    if path == "lambda":
+        return ScalarField(lambda p: fn(*coords_of(p)), cs)
+    e = sympy.sympify(fn(*cs.coord_system.base_scalars()))
+    if path == "value":
+        return ScalarField(e, cs)
+    if path == "from_expression":
+        return ScalarField.from_expression(e, cs)
+    raise ValueError(path)
 
 
-def vector_field(cs, fns):
+def vector_field(cs, fns, path="lambda"):
+    """`path` = how the VectorField object is constructed: point function, stored value list (numbers or expressions
+    in the base scalars = components in the local basis), VectorField.from_vector, VectorField.from_sympy_vector."""
     VectorField = impl()[2]
-    return VectorField(lambda p: [fn(*coords_of(p)) for fn in fns], cs)
+    if path == "lambda":
+        return VectorField(lambda p: [fn(*coords_of(p)) for fn in fns], cs)
+    es = [sympy.sympify(fn(*cs.coord_system.base_scalars())) for fn in fns]
+    if path == "list":
+        return VectorField(es, cs)
+    if path == "from_vector":
+        from symplyphysics.core.vectors.vectors import Vector  # pylint: disable=import-outside-toplevel
+        return VectorField.from_vector(Vector(es, cs))
+    if path == "from_sympy_vector":
+        from sympy.vector import Vector as SymVector  # pylint: disable=import-outside-toplevel
+        v = SymVector.zero
+        for e, b in zip(es, cs.coord_system.base_vectors()):
+            v = v + e * b
+        return VectorField.from_sympy_vector(v, cs)
+    raise ValueError(path)
 
 
-def run_grad(cs, fn):
-    return list(impl()[3](scalar_field(cs, fn)).components)
-
-
-def run_div(cs, fns):
-    return impl()[4](vector_field(cs, fns))
-
-
-def run_curl(cs, fns):
-    out = list(impl()[5](vector_field(cs, fns)).apply_to_basis().components)
+def run_grad(cs, fn, path="lambda"):
+    out = list(impl()[3](scalar_field(cs, fn, path)).components)
     return out + [sympy.S.Zero] * (3 - len(out))
 
 
-def run_curlgrad(cs, fn):
+def run_div(cs, fns, path="lambda"):
+    return impl()[4](vector_field(cs, fns, path))
+
+
+def run_curl(cs, fns, path="lambda"):
+    out = list(impl()[5](vector_field(cs, fns, path)).apply_to_basis().components)
+    return out + [sympy.S.Zero] * (3 - len(out))
+
+
+def run_curlgrad(cs, fn, path="lambda"):
     VectorField = impl()[2]
-    g = impl()[3](scalar_field(cs, fn))
+    g = impl()[3](scalar_field(cs, fn, path))
     out = list(impl()[5](VectorField.from_vector(g)).apply_to_basis().components)
     return out + [sympy.S.Zero] * (3 - len(out))
 
 
-def run_divcurl(cs, fns):
-    return impl()[4](impl()[5](vector_field(cs, fns)))
+def run_divcurl(cs, fns, path="lambda"):
+    return impl()[4](impl()[5](vector_field(cs, fns, path)))
 
 
 # ---------------------------------------------------------------------------------------------
@@ -153,31 +185,68 @@ def generic_lemmas(ctx):
             lemmas.append(coqrun.Lemma(name, stmt(side_hyps(s, all_exprs), t, model), "c12_tie.", item))
             outputs[name] = expr
 
-        # gradient
-        g = run_grad(cs, gen[0])
-        if len(g) != 3:
-            ctx.violation(f"C12:tie:grad_{s}", f"gradient returned {len(g)} components",
-                {"kind": "broken-tie", "theorem_or_tie": f"grad_{s}", "observed": str(g)}, found_input=False)
-        for i, e in enumerate(g[:3]):
-            add(f"corr_grad_{s}_{i}", e, f"ev rho (c3 {i} (grad {S} D gen_scalar))", f"gradient_operator[{s}] component {i}", g)
-        # divergence / curl for every component count
-        for n in range(4):
-            d = run_div(cs, gen[1:1 + n])
-            model_div = div_model(s, d)
-            add(f"corr_div_{s}_{n}", d, f"ev rho ({model_div} (gen_vector {n}))", f"divergence_operator[{s}] on {n} components", [d])
-            c = run_curl(cs, gen[1:1 + n])
-            for i, e in enumerate(c[:3]):
-                add(f"corr_curl_{s}_{n}_{i}", e, f"ev rho (c3 {i} (curl {S} D (gen_vector {n})))",
-                    f"curl_operator[{s}] on {n} components, component {i}", c)
-        # compositions through the real code (from_vector / apply_to_basis substitution path)
+        for sp in SPATHS:
+            sfx = "" if sp == "lambda" else f"_{sp}"
+            g = run_grad(cs, gen[0], sp)
+            for i, e in enumerate(g[:3]):
+                add(f"corr_grad_{s}_{i}{sfx}", e, f"ev rho (c3 {i} (grad {S} D gen_scalar))",
+                    f"gradient_operator[{s}] component {i}, ScalarField built by {sp}", g)
+            # composition through the real code (from_vector / apply_to_basis substitution path)
+            cg = run_curlgrad(cs, gen[0], sp)
+            for i, e in enumerate(cg[:3]):
+                add(f"corr_curlgrad_{s}_{i}{sfx}", e, f"ev rho (c3 {i} (curl {S} D (list3 (grad {S} D gen_scalar))))",
+                    f"curl_operator(gradient_operator f)[{s}] component {i}, ScalarField built by {sp}", cg)
+        # divergence / curl for every component count and every way of constructing the field
+        for vp in VPATHS:
+            sfx = "" if vp == "lambda" else f"_{vp}"
+            for n in range(4):
+                d = run_div(cs, gen[1:1 + n], vp)
+                add(f"corr_div_{s}_{n}{sfx}", d, f"ev rho ({div_model(s, d)} (gen_vector {n}))",
+                    f"divergence_operator[{s}] on {n} components, VectorField built by {vp}", [d])
+                c = run_curl(cs, gen[1:1 + n], vp)
+                for i, e in enumerate(c[:3]):
+                    add(f"corr_curl_{s}_{n}_{i}{sfx}", e, f"ev rho (c3 {i} (curl {S} D (gen_vector {n})))",
+                        f"curl_operator[{s}] on {n} components, component {i}, VectorField built by {vp}", c)
+            dc = run_divcurl(cs, gen[1:4], vp)
+            add(f"corr_divcurl_{s}{sfx}", dc, f"ev rho ({div_model(s, dc)} (list3 (curl {S} D (gen_vector 3))))",
+                f"divergence_operator(curl_operator F)[{s}], VectorField built by {vp}", [dc])
         cg = run_curlgrad(cs, gen[0])
-        for i, e in enumerate(cg[:3]):
-            add(f"corr_curlgrad_{s}_{i}", e, f"ev rho (c3 {i} (curl {S} D (list3 (grad {S} D gen_scalar))))",
-                f"curl_operator(gradient_operator f)[{s}] component {i}", cg)
         dc = run_divcurl(cs, gen[1:4])
-        model_div = div_model(s, dc)
-        add(f"corr_divcurl_{s}", dc, f"ev rho ({model_div} (list3 (curl {S} D (gen_vector 3))))",
-            f"divergence_operator(curl_operator F)[{s}]", [dc])
+        # constant components c1 c2 c3 in the local basis (stored values / value lists): the field whose jets of order
+        # >= 1 vanish -- the curvilinear terms of the model (F_r/r, 2F_r/r, F_phi cot(phi)/r, ...) must appear
+        consts = sympy.symbols("vpc0 vpc1 vpc2 vpc3")
+        cjs = lambda: JetSer(q, {}, symbols={c_: f"k{k}" for k, c_ in enumerate(consts)})   # noqa: E731
+
+        def add_const(name, expr, model, item, all_exprs, ks):
+            hy = side_hyps(s, all_exprs)
+            for k in ks:
+                hy += [f"vj rho {k} 0 0 0 = k{k}", f"vj rho {k} 1 0 0 = 0", f"vj rho {k} 0 1 0 = 0", f"vj rho {k} 0 0 1 = 0"]
+            try:
+                t = cjs().term(expr)
+            except sx.Unsupported as e:
+                ctx.violation(f"C12:tie:{name}", f"output of {item} left the translated vocabulary: {e}",
+                    {"kind": "broken-tie", "theorem_or_tie": name, "item": item, "observed": str(expr)}, found_input=False)
+                return
+            h = "".join(f"{x} -> " for x in hy)
+            lemmas.append(coqrun.Lemma(name, f"forall (rho : val) (k0 k1 k2 k3 : R), {h}{t} = {model}", "c12_tie_const.", item))
+            outputs[name] = expr
+
+        cfn = [(lambda *a_, c_=c_: c_) for c_ in consts]
+        for sp in ("value", "from_expression"):
+            g = run_grad(cs, cfn[0], sp)
+            for i, e in enumerate(g[:3]):
+                add_const(f"corr_const_grad_{s}_{i}_{sp}", e, f"ev rho (c3 {i} (grad {S} D gen_scalar))",
+                    f"gradient_operator[{s}] of a constant ScalarField built by {sp}, component {i}", g, [0])
+        for vp in ("list", "from_vector", "from_sympy_vector"):
+            for n in range(1, 4):
+                d = run_div(cs, cfn[1:1 + n], vp)
+                dm = "div_sph_code D" if (s == "sph" and sympy.sympify(d).has(sympy.tan)) else f"div {S} D"
+                add_const(f"corr_const_div_{s}_{n}_{vp}", d, f"ev rho ({dm} (gen_vector {n}))",
+                    f"divergence_operator[{s}] of the constant value list c1..c{n} built by {vp}", [d], range(1, n + 1))
+                c = run_curl(cs, cfn[1:1 + n], vp)
+                for i, e in enumerate(c[:3]):
+                    add_const(f"corr_const_curl_{s}_{n}_{i}_{vp}", e, f"ev rho (c3 {i} (curl {S} D (gen_vector {n})))",
+                        f"curl_operator[{s}] of the constant value list c1..c{n} built by {vp}, component {i}", c, range(1, n + 1))
         # the identities stated directly about the implementation's output
         js = ser()
         try:
@@ -295,16 +364,27 @@ def close(a, b):
     return bool(abs(a - b) <= sympy.Float("1e-25") * (1 + abs(b)))
 
 
-def spec_case(kind, s, fields, pts):
+def inverse_map(s):
+    """the system's coordinates of the Cartesian point (x, y, z), off the singular sets"""
+    if s == "cart":
+        return [X, Y, Z]
+    if s == "cyl":
+        return [sympy.sqrt(X**2 + Y**2), sympy.atan2(Y, X), Z]
+    rr = sympy.sqrt(X**2 + Y**2 + Z**2)
+    return [rr, sympy.atan2(Y, X), sympy.acos(Z / rr)]
+
+
+def spec_case(kind, s, fields, pts, path="lambda"):
     """Evaluate the specification on the real code.  Returns None when it holds at all points, otherwise a dict
-    describing the first failing point.  `fields` are expressions (strings are sympified)."""
+    describing the first failing point.  `fields` are expressions (strings are sympified); `path` says how the
+    ScalarField / VectorField object is constructed."""
     cs, q = make_cs(s)
     fields = [sympy.sympify(f, locals={"x": X, "y": Y, "z": Z, "q0": Q[0], "q1": Q[1], "q2": Q[2]}) for f in fields]
     Xq = coord_map(s, q)
     E = local_basis(s, q)
     if kind == "grad":          # fields = [g(x,y,z)]
         g = fields[0]
-        got = run_grad(cs, lambda a, b, c: cart_fn(g)(*coord_map(s, [a, b, c])))
+        got = run_grad(cs, lambda a, b, c: cart_fn(g)(*coord_map(s, [a, b, c])), path)
         cg = [at_cart(sympy.diff(g, v), Xq) for v in (X, Y, Z)]
         want = [sum(E[i][k] * cg[k] for k in range(3)) for i in range(3)]
     elif kind in ("div", "curl"):   # fields = [G1, G2, G3] of the Cartesian point
@@ -313,29 +393,54 @@ def spec_case(kind, s, fields, pts):
             return lambda a, b, c: sum(local_basis(s, [a, b, c])[i][k] * cart_fn(G[k])(*coord_map(s, [a, b, c])) for k in range(3))
         fns = [comp_fn(i) for i in range(3)]
         if kind == "div":
-            got = [run_div(cs, fns)]
+            got = [run_div(cs, fns, path)]
             want = [at_cart(sympy.diff(G[0], X) + sympy.diff(G[1], Y) + sympy.diff(G[2], Z), Xq)]
         else:
-            got = run_curl(cs, fns)
+            got = run_curl(cs, fns, path)
             cc = [sympy.diff(G[2], Y) - sympy.diff(G[1], Z), sympy.diff(G[0], Z) - sympy.diff(G[2], X),
                 sympy.diff(G[1], X) - sympy.diff(G[0], Y)]
             cc = [at_cart(c_, Xq) for c_ in cc]
             want = [sum(E[i][k] * cc[k] for k in range(3)) for i in range(3)]
     elif kind == "curlgrad":    # fields = [f(q0,q1,q2)] in the system's own coordinates
-        got = run_curlgrad(cs, q_fn(fields[0]))
+        got = run_curlgrad(cs, q_fn(fields[0]), path)
         want = [0, 0, 0]
     elif kind == "divcurl":     # fields = [F1,F2,F3](q)
-        got = [run_divcurl(cs, [q_fn(f) for f in fields])]
+        got = [run_divcurl(cs, [q_fn(f) for f in fields], path)]
         want = [0]
+    elif kind in ("grad_local", "div_local", "curl_local"):
+        # fields are given in the system's OWN coordinates (scalar f(q) / local-basis components F_i(q), possibly
+        # constants).  Truth: re-express as a field of the Cartesian point through the inverse coordinate map, apply the
+        # Cartesian operator with plain sympy.diff, go back to the point and project on the local basis.
+        inv = inverse_map(s)
+        to_cart = lambda e: sympy.sympify(e).subs(dict(zip(Q, inv)), simultaneous=True)    # noqa: E731
+        if kind == "grad_local":
+            got = run_grad(cs, q_fn(fields[0]), path)
+            gc = to_cart(fields[0])
+            cg = [at_cart(sympy.diff(gc, v), Xq) for v in (X, Y, Z)]
+            want = [sum(E[i][k] * cg[k] for k in range(3)) for i in range(3)]
+        else:
+            comps = list(fields) + [sympy.S.Zero] * (3 - len(fields))
+            Einv = local_basis(s, inv)
+            G = [sum(to_cart(comps[i]) * Einv[i][k] for i in range(3)) for k in range(3)]
+            fns = [q_fn(f) for f in fields]
+            if kind == "div_local":
+                got = [run_div(cs, fns, path)]
+                want = [at_cart(sympy.diff(G[0], X) + sympy.diff(G[1], Y) + sympy.diff(G[2], Z), Xq)]
+            else:
+                got = run_curl(cs, fns, path)
+                cc = [sympy.diff(G[2], Y) - sympy.diff(G[1], Z), sympy.diff(G[0], Z) - sympy.diff(G[2], X),
+                    sympy.diff(G[1], X) - sympy.diff(G[0], Y)]
+                cc = [at_cart(c_, Xq) for c_ in cc]
+                want = [sum(E[i][k] * cc[k] for k in range(3)) for i in range(3)]
     elif kind.startswith("pad_"):   # fields = n components (q); short field vs explicitly padded field
         op = kind[4:]
         fns = [q_fn(f) for f in fields]
         zero = lambda a, b, c: sympy.S.Zero    # noqa: E731
         full = fns + [zero] * (3 - len(fns))
         if op == "div":
-            got, want = [run_div(cs, fns)], [run_div(cs, full)]
+            got, want = [run_div(cs, fns, path)], [run_div(cs, full, path)]
         else:
-            got, want = run_curl(cs, fns), run_curl(cs, full)
+            got, want = run_curl(cs, fns, path), run_curl(cs, full, path)
     else:
         raise ValueError(kind)
     for pt in pts:
@@ -353,7 +458,7 @@ def spec_stream(ctx, n_per, only=None):
     rng = ctx.rng
     cases = []
     for s in SYSTEMS:
-        for kind in ("grad", "div", "curl", "curlgrad", "divcurl", "pad_div", "pad_curl"):
+        for kind in ("grad", "div", "curl", "curlgrad", "divcurl", "pad_div", "pad_curl", "grad_local", "div_local", "curl_local"):
             if only is not None and (kind, s) not in only:
                 continue
             for j in range(n_per):
@@ -365,17 +470,27 @@ def spec_stream(ctx, n_per, only=None):
                     fields = [rand_curv_field(rng, s)]
                 elif kind == "divcurl":
                     fields = [rand_curv_field(rng, s) for _ in range(3)]
-                else:
+                elif kind.startswith("pad_"):
                     fields = [rand_curv_field(rng, s) for _ in range(j % 3)]
+                elif kind == "grad_local":
+                    fields = [sympy.Integer(rng.choice([-2, 1, 3])) if j == 0 else rand_curv_field(rng, s)]
+                else:   # div_local / curl_local: constant local components first, then expressions, 1..3 components
+                    nc = 3 if j < 2 else 1 + j % 3
+                    fields = [sympy.Integer(rng.choice([-3, -1, 1, 2])) if j % 2 == 0 else rand_curv_field(rng, s)
+                        for _ in range(nc)]
+                # every way of constructing the field object is rotated through; stored values / value lists first
+                scalar_kind = kind in ("grad", "curlgrad", "grad_local")
+                paths = SPATHS if scalar_kind else VPATHS
+                path = paths[(j + 1) % len(paths)]
                 pts = [rand_point(rng, s) for _ in range(2)]
                 if s == "sph" and j % 2 == 0:
                     pts.append(rand_point(rng, s, special=True))      # the plane phi = pi/2
-                cases.append({"kind": kind, "sys": s, "fields": [str(f) for f in fields],
+                cases.append({"kind": kind, "sys": s, "path": path, "fields": [str(f) for f in fields],
                     "points": [[str(c) for c in p] for p in pts]})
     bad = []
     for c in cases:
         try:
-            r = spec_case(c["kind"], c["sys"], c["fields"], c["points"])
+            r = spec_case(c["kind"], c["sys"], c["fields"], c["points"], c.get("path", "lambda"))
         except Exception as e:  # pylint: disable=broad-except
             r = {"exception": f"{type(e).__name__}: {e}"}
         if r is not None:
@@ -384,12 +499,13 @@ def spec_stream(ctx, n_per, only=None):
 
 
 OP_OF_KIND = {"grad": "grad", "div": "div", "curl": "curl", "curlgrad": "curlgrad", "divcurl": "divcurl",
-    "pad_div": "div", "pad_curl": "curl"}
+    "pad_div": "div", "pad_curl": "curl", "grad_local": "grad", "div_local": "div", "curl_local": "curl"}
 
 
 def report_spec(ctx, c, r):
     key = f"C12:spec:{c['kind']}:{c['sys']}"
-    what = (f"{c['kind']} in {c['sys']} coordinates contradicts the property on the field {c['fields']} at "
+    what = (f"{c['kind']} in {c['sys']} coordinates contradicts the property on the field {c['fields']} (field object built by "
+        f"{c.get('path', 'lambda')}) at "
         f"{r.get('point')}: component {r.get('component')} is {r.get('observed')}, expected {r.get('expected')}"
         if "exception" not in r else f"{c['kind']} in {c['sys']} coordinates raised {r['exception']} on {c['fields']}")
     ctx.violation(key, what, {"kind": "spec", "item": f"{c['kind']}[{c['sys']}]", "input": c, "observed": r,
@@ -406,15 +522,18 @@ def concrete_lemmas(ctx, n_per):
         S = COQ_SYS[s]
         for j in range(n_per):
             bodies = [rand_curv_field(rng, s) for _ in range(4)]
+            if j % 4 == 1:      # integer constants (a stored value / value list of numbers)
+                bodies = [sympy.Integer(rng.choice([-3, -2, -1, 1, 2, 5])) for _ in range(4)]
+            spath, vpath = SPATHS[(j + 1) % len(SPATHS)], VPATHS[(j + 1) % len(VPATHS)]
             bq = [b.subs(dict(zip(Q, q)), simultaneous=True) for b in bodies]
             try:
                 lits = [to_tx(b, q) for b in bq]
             except sx.Unsupported:
                 continue
             n = j % 3 + 1 if j % 4 else 3
-            g = run_grad(cs, q_fn(bodies[0]))
-            d = run_div(cs, [q_fn(b) for b in bodies[1:1 + n]])
-            c = run_curl(cs, [q_fn(b) for b in bodies[1:1 + n]])
+            g = run_grad(cs, q_fn(bodies[0]), spath)
+            d = run_div(cs, [q_fn(b) for b in bodies[1:1 + n]], vpath)
+            c = run_curl(cs, [q_fn(b) for b in bodies[1:1 + n]], vpath)
             vec = "[" + "; ".join(lits[1:1 + n]) + "]"
             js = lambda: JetSer(q, {})    # noqa: E731
             model_div = div_model(s, d)
@@ -424,7 +543,7 @@ def concrete_lemmas(ctx, n_per):
             for name, e, model, allx in items:
                 try:
                     lemmas.append(coqrun.Lemma(name, stmt(side_hyps(s, allx), js().term(e), model), "c12_tie.",
-                        f"{name} on bodies {[str(b) for b in bodies[:1 + n]]}"))
+                        f"{name} on bodies {[str(b) for b in bodies[:1 + n]]} (built by {spath} / {vpath})"))
                 except sx.Unsupported as ex:
                     ctx.violation(f"C12:tie:{name}", f"concrete output left the vocabulary: {ex}",
                         {"kind": "broken-tie", "theorem_or_tie": name, "observed": str(e)}, found_input=False)
@@ -509,8 +628,9 @@ def run(ctx):
     need_search = {}
     for lm, err in failed:
         op, s = parse_lemma(lm.name)
-        kinds = {"grad": ["grad"], "div": ["div", "pad_div"], "curl": ["curl", "pad_curl"], "curlgrad": ["curlgrad", "grad", "curl"],
-            "divcurl": ["divcurl", "div", "curl"], "map": ["grad"]}.get(op, ["grad", "div", "curl"])
+        kinds = {"grad": ["grad", "grad_local"], "div": ["div", "div_local", "pad_div"], "curl": ["curl", "curl_local", "pad_curl"],
+            "curlgrad": ["curlgrad", "grad", "curl"], "divcurl": ["divcurl", "div", "curl"],
+            "map": ["grad"]}.get(op, ["grad", "div", "curl", "grad_local", "div_local", "curl_local"])
         if any((OP_OF_KIND[k], s) in spec_bad_keys for k in kinds):
             continue    # a concrete failing input for this operator/system is already reported
         need_search.setdefault((tuple(kinds), s), []).append((lm, err))
@@ -536,8 +656,8 @@ def run(ctx):
 def replay(ctx, rep):
     if rep.get("kind") == "spec":
         c = rep["input"]
-        r = spec_case(c["kind"], c["sys"], c["fields"], c["points"])
-        print(f"replay {c['kind']}[{c['sys']}] fields={c['fields']} points={c['points']}")
+        r = spec_case(c["kind"], c["sys"], c["fields"], c["points"], c.get("path", "lambda"))
+        print(f"replay {c['kind']}[{c['sys']}] built by {c.get('path', 'lambda')} fields={c['fields']} points={c['points']}")
         if r is None:
             print("specification holds now")
             return 0
